@@ -379,3 +379,27 @@ def document_strategy(profile: Profile, stats=None):
         return Gen(Ch(draw), profile, stats).document()
 
     return _doc()
+
+
+class RandCh:
+    """random.Random-backed chooser - for debugging and replay only (checks use Hypothesis draws)."""
+
+    def __init__(self, seed=0):
+        import random
+
+        self.r = random.Random(seed)
+
+    def choice(self, seq):
+        return self.r.choice(list(seq))
+
+    def int(self, lo, hi):
+        return self.r.randint(lo, hi)
+
+    def bool(self):
+        return self.r.random() < 0.5
+
+    def chance(self, num, den):
+        return self.r.randrange(den) < num
+
+    def draw(self, strategy):
+        return strategy.example()
